@@ -363,11 +363,69 @@ def history(ctx, i):
     return ok
 
 
+def entry_chain_directed(ctx):
+    """Directed: a chain a -> b -> c. Graphs with entry points are RECEIVERS of further with_entrypoint() calls and are run
+    before and after; siblings with other entry points (same structure, same structure hash) are run in between.
+    Judged twice: against the twin built by the same derivation alone, and against the scope the entry points define
+    (only the entry nodes and what is downstream of them run) - an oracle that does not depend on the history."""
+    rt.reset_program()
+    spec = {"name": "chain", "nodes": [
+        {"k": "fn", "name": "a", "params": [{"n": "x"}], "outs": ["m1"]},
+        {"k": "fn", "name": "b", "params": [{"n": "m1"}], "outs": ["m2"]},
+        {"k": "fn", "name": "c", "params": [{"n": "m2"}], "outs": ["m3"]},
+    ], "bind": {}}
+    root = build_program(spec).graph
+    downstream = {"a": {"a", "b", "c"}, "b": {"b", "c"}, "c": {"c"}}
+    case = {"spec": spec, "ops": "directed entry-point chain"}
+    lives = {"root": Live(root, [], "graph")}
+
+    def derive(name, frm, entry):
+        lives[name] = Live(lives[frm].obj.with_entrypoint(*entry), lives[frm].recipe + [("entry", [list(entry)])], "graph")
+        ctx.obs["operations"] += 1
+
+    def check(name, when):
+        lv = lives[name]
+        if not compare(ctx, spec, lv, case, f"{name} {when}"):
+            return False
+        cfg = lv.obj.entrypoints_config
+        if cfg:
+            allowed = set().union(*(downstream[e] for e in cfg))
+            # the graph input x is always supplied, so that the upstream node `a` COULD run if it were scheduled
+            from hypergraph import SyncRunner
+
+            rec = rt.new_rec()
+            import warnings
+
+            with warnings.catch_warnings():
+                warnings.simplefilter("ignore")
+                seeds = {"x": "fix:x"} if "a" in cfg else {"x": "fix:x", "m1": "fix:m1"} if "b" in cfg else {"x": "fix:x", "m2": "fix:m2"}
+                SyncRunner().run(lv.obj, seeds, error_handling="continue")
+            ran = {e[1].rsplit("/", 1)[-1] for e in rec.ev if e[0] == "enter"}
+            ctx.obs["entry_scope_runs"] += 1
+            if not ran <= allowed or not set(cfg) <= ran:
+                ctx.violation("C07:changed:run", f"{name} ({fmt(lv.recipe)}) {when}: executed {sorted(ran)}; its entry points {list(cfg)} allow exactly the entry nodes and what is downstream: {sorted(allowed)}", case)
+                return False
+        return True
+
+    derive("gb", "root", ["b"])
+    ok = check("gb", "fresh")
+    derive("gb_then_a", "gb", ["a"])  # the receiver already has entry points; the new entry node is UPSTREAM of them
+    ok = ok and check("gb", "after with_entrypoint('a') was derived from it") and check("gb_then_a", "fresh")
+    derive("gc", "root", ["c"])
+    ok = ok and check("gc", "after a sibling with other entry points ran") and check("gb", "after gc ran") and check("root", "at the end")
+    derive("gc_then_b", "gc", ["b"])
+    ok = ok and check("gc", "after with_entrypoint('b') was derived from it") and check("gc_then_b", "fresh") and check("gb", "at the end")
+    ctx.case({"directed": "entry-chain"}, True)
+    return ok
+
+
 def run(ctx):
     n = 110 if ctx.tier == "quick" else 3200
     core.WARM_P = 0.0
     if ctx.replay:
         ctx.inconc("C07 replays are re-generated from the seed; re-run the tier with the recorded seed")
         return
+    if ctx.shard[0] == 0:
+        entry_chain_directed(ctx)
     for i in range(n):
         history(ctx, i)
